@@ -150,14 +150,19 @@ def run(ctx):
         appends_bad = None
         pay_bad = None
         table = {}
-        for q in st.ok_paths():
+
+        def payment_dispatch(e):
+            # a helper that turns the signed funding payment into (at most) one message: takes an Integer, builds sub-messages
+            t_ = e.target
+            return model.constructs_submsg(ix, t_) and any(t_.locals[i + 1]["ty"].endswith("integer::Integer") for i in range(t_.arg_count))
+        for q in splice(ix, st.ok_paths(), payment_dispatch):
             ws = [e for e in q.events if ("write", VMAP) in ix.event_effects(e)[0]]
             if len(ws) != 1:
                 appends_bad = appends_bad or "%d calls writing the vAMM map on a success path" % len(ws)
             # payment tree
             pay = None
             for (at, o, _b, _l) in q.conds:
-                if tag(at) == "call" and payload(at)[0].endswith(("Integer::is_negative", "Integer::is_positive")):
+                if tag(at) == "call" and payload(at)[0].endswith(("Integer::is_negative", "Integer::is_positive", "Integer::is_zero")):
                     pay = kids(at)[0]
             if pay is None:
                 pay_bad = pay_bad or "no sign test of the funding payment"
@@ -189,23 +194,37 @@ def run(ctx):
                             kinds.add("to-if")
                         else:
                             kinds.add("transfer-to-OTHER")
-            table[(neg, pos, zero)] = table.get((neg, pos, zero), set()) | kinds
+            # sign class of the payment on this path, however the tests are ordered (is_positive() is "not negative")
+            if zero is True:
+                cls = "zero"
+            elif neg is True:
+                cls = "negative" if zero is False else "negative-or-zero"
+            elif pos is True or neg is False:
+                cls = "positive" if zero is False else "positive-or-zero"
+            elif pos is False:
+                cls = "negative" if zero is False else "negative-or-zero"
+            else:
+                cls = "unknown"
+            table[cls] = table.get(cls, set()) | kinds
         ctx.inst("R11.3", "append-once", appends_bad is None, st.fn.where(), appends_bad or "exactly one vAMM-map write per success path")
         ctx.inst("R11.3", "payment-formula", pay_bad is None, st.fn.where(), pay_bad or "total_position_size * premium_fraction / decimals")
         # expected: negative & nonzero -> if-withdraw only ; positive & nonzero -> to-if ; otherwise nothing
         tb_bad = None
-        for (neg, pos, zero), kinds in table.items():
+        for cls, kinds in table.items():
             k2 = {k for k in kinds if k in ("if-withdraw", "to-if") or "WRONG" in k or "OTHER" in k}
-            if neg is True and zero is False:
+            if cls == "negative":
                 if k2 != {"if-withdraw"}:
                     tb_bad = tb_bad or "negative payment emits %s" % sorted(kinds)
-            elif pos is True and zero is False:
+            elif cls == "positive":
                 if not k2 <= {"to-if"} or "to-if" not in k2:
                     tb_bad = tb_bad or "positive payment emits %s" % sorted(kinds)
-            else:
+            elif cls == "zero":
                 if k2:
                     tb_bad = tb_bad or "zero payment emits %s" % sorted(kinds)
-        ctx.inst("R11.3", "direction-table", tb_bad is None and len(table) >= 3, st.fn.where(),
+            else:
+                if k2:
+                    tb_bad = tb_bad or "a path whose payment sign is %s emits %s" % (cls, sorted(kinds))
+        ctx.inst("R11.3", "direction-table", tb_bad is None and {"negative", "positive"} <= set(table), st.fn.where(),
                  tb_bad or "negative -> insurance Withdraw(|p|); positive -> transfer to insurance fund; zero -> nothing (%d sign classes)" % len(table))
         # cumulative = last + new inside the appender
         cum_bad = None
